@@ -155,7 +155,7 @@ def history(rnd):
             ctx["max"] = ref.V_num(77)
             cvars["newfn"] = ["s", "shadow"]
             ctx["newfn"] = ("s", "shadow")
-        text = ref.Renderer(table=m.tab).render(t)
+        text = ref.Renderer(table=m.tab, rnd=rnd).render(t)
         if reusable and rnd.random() < 0.3:
             # the context of an earlier evaluation is used again (registrations may have happened in between): dispatch must follow
             # the registries as they are NOW, whatever this context has seen before
